@@ -16,6 +16,7 @@ func init() {
 		ID:    "C07",
 		Title: "Decoders and parsers are total and resource-bounded on arbitrary input",
 		Explanation: "Decides the one clause of C07 that is visible in the shape of the code: no allocation size and no loop bound is taken from an integer read off the wire without a constant upper bound (and a lower bound when the value went through a signed type and the sink panics on negatives). Wire-integer taint over SSA: sources are the integer results of decoder calls (computed decoder set, see C08) and Header.Size; propagation through conversions, arithmetic, phi and local variables; sinks are make (len/cap/size hint), reflect.MakeSlice / MakeMapWithSize / Value.SetLen and the bound of a loop whose body is not proved to consume at least one byte per iteration (a callee consumes ≥1 byte if every success path passes a ReadN of constant positive length, computed recursively); sanitiser = guarded reachability against a comparison with a constant. Also: explicit panic statements reachable from the decoder entry points (call graph); the arity of parallel slices indexed by one loop variable in the parsers; unchecked type assertions in the parsers' node builders are limited to the functions that have them today. " +
+			"Allocation sinks are followed into callees through integer parameters; integers returned by a helper that bounded them count as bounded; (backtracking) no two alternatives of an ordered choice in the signature and IDL grammars share a prefix containing a non-terminal. " +
 			"Not decided: absence of implicit panics (index, nil, type assertion inside parsec callbacks) in general, hangs in general, time/memory as a multiple of input length: these need execution.",
 		Assumptions: []string{"64-bit int (int(uint32) is non-negative)", "reflect.MakeMapWithSize tolerates a negative hint", "call graph: VTA"},
 		Run:         runC07,
